@@ -234,6 +234,16 @@ theorem default_logger_immutable :
   intro α l0 ops v' h
   rw [shared_var_immutable ⟨l0, Kit.Generated.C08.defaultLoggerWrites⟩ rfl ops v' h]
 
+/-- `aeskw.defaultIV` (a package-level byte slice) is only ever read: source of `copy`, operand
+of a constant-time comparison -/
+theorem aeskw_default_iv_immutable :
+    Kit.Generated.C08.aeskwDefaultIVWrites = [] ∧
+    ∀ (iv : List Byte) (ops : List (VarOp (List Byte))) (v' : SharedVar (List Byte)),
+      varRun ⟨iv, Kit.Generated.C08.aeskwDefaultIVWrites⟩ ops = some v' → v'.val = iv := by
+  refine ⟨by decide, ?_⟩
+  intro iv ops v' h
+  rw [shared_var_immutable ⟨iv, Kit.Generated.C08.aeskwDefaultIVWrites⟩ rfl ops v' h]
+
 /-- non-vacuity: reads are possible; a listed assignment WOULD change the value -/
 example : varRun (⟨3, []⟩ : SharedVar Nat) [.read, .read] = some ⟨3, []⟩ ∧
     varRun (⟨3, ["x.go:1"]⟩ : SharedVar Nat) [.read, .assign "x.go:1" 4] = some ⟨4, ["x.go:1"]⟩ := ⟨rfl, by simp [varRun, varStep]⟩
